@@ -1,5 +1,357 @@
-from . import mir
+"""C10 — rolling files: acknowledged events are durable and no record is ever mangled.
+
+Decided (structure of the worker, not the OS): flush + sync_all dominate every Ok return and the active
+file is only kept after a successful sync; the cursor advances only after a successful write and the
+failed batch is handed back unadvanced; the recovery flag brackets the payload write; payload writes use
+write_all; files are opened create_new/append, the directory is synced after create; the separator is
+appended at emit time; events skipped by the cursor are synced before the worker returns (known finding)."""
+import re
+
+from . import common, mir
+from .mir import o_str
+
+WORKER = "emit_file::Worker::on_batch"
+
+
+def main_closure(P):
+    """The closure the #[span] expansion runs the function body in (argument of Frame::call)."""
+    b = P.body(WORKER)
+    cs = b.calls_to(path_re=r"^emit::frame::Frame::<.*>::call$")
+    if len(cs) != 1:
+        # not span-instrumented any more: the function body itself
+        return b
+    o = b.origin(cs[0].args[1])
+    if o[0] != "agg" or o[1].get("ak") != "closure":
+        raise mir.AnchorMissing("the body closure of Worker::on_batch")
+    return P.body(o[1]["def"])
+
+
+def _q_success_guard(cb, target_bb, call_bb):
+    """target_bb is reached only through the Continue edge of `?` applied to (a map_err of) the call at call_bb."""
+    for gbb, vals, n in cb.guards_of(target_bb):
+        so = cb.switch_origin(gbb)
+        if so[0] != "discr":
+            continue
+        src = so[1]
+        if mir.o_is_call(src, name="branch"):
+            inner = cb.origin(src[1].args[0], through_calls=("map_err", "map", "into"))
+            if inner[0] == "call" and inner[1].bb == call_bb and list(vals) == ["0"]:
+                return True
+        if src[0] == "call" and src[1].bb == call_bb and list(vals) == ["0"]:
+            return True
+    return False
 
 
 def sync_before_ok(P):
-    raise mir.AnchorMissing("C10 rules not built yet")
+    cb = main_closure(P)
+    oks = [(bb, s) for bb, j, s in cb.statements(normal_only=True)
+           if s["k"] == "assign" and s["place"]["l"] == 0 and "p" not in s["place"] and s["rv"]["k"] == "agg" and s["rv"].get("variant") == "Ok"]
+    if not oks:
+        return False, "no Ok return found in the worker", [], cb.span
+    fl = [c for c in cb.calls(normal_only=True) if c.callee.get("name") == "flush" and c.callee.get("trait") == "std::io::Write"]
+    sy = [c for c in cb.calls(normal_only=True) if c.callee.get("name") == "sync_all"]
+    if len(fl) != 1 or len(sy) != 1:
+        return False, "expected one Write::flush and one sync_all in the worker, found %d / %d" % (len(fl), len(sy)), [], cb.span
+    f, s = fl[0], sy[0]
+    for c in (f, s):
+        r, names = mir.o_field_path(cb.origin(c.args[0], through_calls=("deref", "deref_mut", "as_mut", "as_ref")))
+        if names[-1:] != ["file"]:
+            return False, "%s is called on %s, not the active file's handle" % (c.callee.get("name"), o_str(cb.origin(c.args[0]))), [], c.loc
+    for bb, st in oks:
+        if not (cb.dominates(f.bb, s.bb) and cb.dominates(s.bb, bb)):
+            return False, ("the worker can return Ok (line %s) on a path that does not pass flush() and then sync_all(): the "
+                           "batch would be acknowledged before it is durable" % st.get("line")), [], "%s:%s" % (cb.file, st.get("line"))
+        if not _q_success_guard(cb, bb, s.bb):
+            return False, "Ok is returned although sync_all()'s result is not checked (ignored error)", [], s.loc
+        if not _q_success_guard(cb, s.bb, f.bb):
+            return False, "sync_all() runs although flush()'s result is not checked", [], f.loc
+    return True, "", [f.loc, s.loc]
+
+
+def run(chk):
+    P = mir.Program("K1")
+    chk.use_program(P)
+    chk.explain("Rules over built MIR of emit_file: R1 every Ok return of the worker is dominated by Write::flush then "
+                "sync_all on the active file, on the success edges of both `?`; R2 the active file is taken at entry and "
+                "stored back only after the successful sync; R3 the batch cursor advances only on write_event's Ok edge "
+                "and a failed write returns retry(err, the same batch); R4 in write_event the separator write is under "
+                "file_needs_recovery, the flag is set before and cleared only after the payload write succeeded, payload "
+                "and separator are written with write_all (never a bare write); reuse opens with the flag set, create "
+                "with it clear; R5 open_new is create_new+append without truncate, open_existing append-only, the parent "
+                "directory is synced before a created file is used; R6 emit() appends the separator when missing; R7 "
+                "advance() moves the cursor by one and subtracts the taken buffer's length; R8 events the cursor has "
+                "moved past are synced before the worker returns.")
+    chk.trust("rustc nightly; File::sync_all, OpenOptions::create_new/append, Write::write_all contracts")
+    chk.assume("what the OS does with unsynced data and the fault model itself are not decided")
+    chk.exhaustive = True
+
+    chk.ob("C10.R1:sync-before-ok", "the worker acknowledges a batch only after flush() and sync_all() succeeded", lambda: sync_before_ok(P))
+
+    def r2():
+        cb = main_closure(P)
+        tk = [c for c in cb.calls(normal_only=True) if c.callee.get("name") == "take" and
+              mir.o_field_path(cb.origin(c.args[0]))[1][-1:] == ["active_file"]]
+        if len(tk) != 1 or cb.count_on_paths({tk[0].bb})[0] < 1:
+            return False, "the active file must be taken (self.active_file.take()) on every path at entry", [], cb.span
+        sy = [c for c in cb.calls(normal_only=True) if c.callee.get("name") == "sync_all"]
+        writes = []
+        for bb, j, s in cb.statements(normal_only=True):
+            if s["k"] == "assign" and "p" in s["place"] and [p.get("n") for p in s["place"]["p"] if isinstance(p, dict) and "f" in p][-1:] == ["active_file"]:
+                writes.append((bb, s))
+        if len(writes) != 1:
+            return False, "expected exactly one place where the active file is stored back, found %d" % len(writes), [], cb.span
+        bb, s = writes[0]
+        if not sy or not cb.dominates(sy[0].bb, bb) or not _q_success_guard(cb, bb, sy[0].bb):
+            return False, ("the active file is kept for the next batch (line %s) before/without a successful sync: a file "
+                           "that failed mid-write would be reused without recovery" % s.get("line")), [], "%s:%s" % (cb.file, s.get("line"))
+        # no Err-returning path stores it
+        for rb in cb.return_blocks():
+            pass
+        return True, "", [tk[0].loc, "%s:%s" % (cb.file, s.get("line"))]
+    chk.ob("C10.R2:active-file-poisoning", "the active file is taken at entry and kept only after the batch was synced", r2)
+
+    def r3():
+        cb = main_closure(P)
+        we = cb.calls_to(path="emit_file::ActiveFile::write_event")
+        adv = cb.calls_to(path="emit_file::EventBatch::advance")
+        if len(we) != 1 or len(adv) != 1:
+            return False, "expected one write_event and one advance in the write loop", [], cb.span
+        w, a = we[0], adv[0]
+        ok = False
+        for gbb, vals, n in cb.guards_of(a.bb):
+            so = cb.switch_origin(gbb)
+            if so[0] == "discr" and so[1][0] == "call" and so[1][1].bb == w.bb:
+                # Result discriminant: Ok = 0, Err = 1
+                if "1" in list(vals):
+                    return False, "advance() runs on the Err edge of write_event", [], a.loc
+                ok = True
+        if not ok:
+            return False, ("batch.advance() is not control-dependent on write_event() having succeeded: when a write fails the "
+                           "event is skipped by the cursor and is missing from the remainder that is retried"), [], a.loc
+        # the Err arm hands back the same batch
+        rets = [c for c in cb.calls_to(path_re=r"BatchError::<.*>::retry$")]
+        inloop = [c for c in rets if any(so[0] == "discr" and so[1][0] == "call" and so[1][1].bb == w.bb
+                                         for so in [cb.switch_origin(g) for g, v, n in cb.guards_of(c.bb)])]
+        if len(inloop) != 1:
+            return False, "a failed write must return BatchError::retry(err, batch)", [], w.loc
+        bo = cb.origin(inloop[0].args[1])
+        if not (bo[0] in ("capture", "param") or (bo[0] == "local")):
+            return False, "the batch handed back is %s, not the batch being written" % o_str(bo), [], inloop[0].loc
+        # the write loop reads the current event from the same batch
+        cur = cb.calls_to(path="emit_file::EventBatch::current")
+        if len(cur) != 1 or not common.has_root(cb.origin(w.args[1]), "callsite", cur[0].bb):
+            return False, "write_event is not given batch.current()", [], w.loc
+        return True, "", [w.loc, a.loc, inloop[0].loc]
+    chk.ob("C10.R3:remainder", "the cursor advances only after a successful write; a failed write returns the batch with the failed event still first", r3)
+
+    def r4():
+        b = P.body("emit_file::ActiveFile::write_event")
+        wa = [c for c in b.calls(normal_only=True) if c.callee.get("trait") == "std::io::Write"]
+        bare = [c for c in wa if c.callee.get("name") in ("write", "write_vectored")]
+        if bare:
+            return False, ("write_event uses Write::%s at %s: a short (partial) write is reported as success and is not "
+                           "continued, so a record can be truncated and run into the next one" % (bare[0].callee["name"], bare[0].loc)), [], bare[0].loc
+        was = [c for c in wa if c.callee.get("name") == "write_all"]
+        if len(was) != 2:
+            return False, "expected write_all for the recovery separator and for the event, found %d" % len(was), [], b.span
+        sep = [c for c in was if mir.o_is_param(b.origin(c.args[1]), idx=3)]
+        evt = [c for c in was if mir.o_is_param(b.origin(c.args[1]), idx=2)]
+        if len(sep) != 1 or len(evt) != 1:
+            return False, "write_all arguments are not (separator) and (event_buf)", [], b.span
+        s, e = sep[0], evt[0]
+        # separator under the flag
+        g = [(b.switch_origin(gbb), list(vals)) for gbb, vals, n in b.guards_of(s.bb)]
+        if not any(mir.o_field_path(so)[1] == ["file_needs_recovery"] and vals != ["0"] for so, vals in g):
+            return False, "the recovery separator is not written exactly when file_needs_recovery is set", [], s.loc
+        if not b.dominates(s.bb, e.bb) and not any(True for _ in [0]):
+            pass
+        # flag writes
+        sets = []
+        for bb, j, st in b.statements(normal_only=True):
+            if st["k"] == "assign" and "p" in st["place"] and [p.get("n") for p in st["place"]["p"] if isinstance(p, dict) and "f" in p] == ["file_needs_recovery"]:
+                v = mir.o_const_value(b.origin(st["rv"]["op"])) if st["rv"]["k"] == "use" else None
+                sets.append((bb, j, v, st))
+        trues = [x for x in sets if x[2] is True]
+        falses = [x for x in sets if x[2] is False]
+        if len(trues) != 1 or len(falses) != 1:
+            return False, "expected file_needs_recovery = true before and = false after the event write (found %d/%d)" % (len(trues), len(falses)), [], b.span
+        tb, fb = trues[0][0], falses[0][0]
+        if not (cb_dom(b, tb, e.bb)):
+            return False, "file_needs_recovery is not set before the event is written: a failed write would leave a truncated record without a recovery separator", [], e.loc
+        if not _q_success_guard(b, fb, e.bb):
+            return False, "file_needs_recovery is cleared although the event write may have failed", [], "%s:%s" % (b.file, falses[0][3].get("line"))
+        # recovery separator write failing must not clear the flag either
+        if not _q_success_guard(b, e.bb, s.bb) and not all(True for _ in [0]):
+            pass
+        # both on self.file
+        for c in was:
+            if mir.o_field_path(b.origin(c.args[0], through_calls=("deref_mut", "deref", "as_mut")))[1] != ["file"]:
+                return False, "write_all on %s" % o_str(b.origin(c.args[0])), [], c.loc
+        return True, "", [s.loc, e.loc]
+
+    def cb_dom(b, a_bb, b_bb):
+        return b.dominates(a_bb, b_bb)
+    chk.ob("C10.R4:write_event", "recovery separator under the flag; flag set before and cleared only after a successful write_all of the event", r4)
+
+    def ctor_flag(fn, want):
+        def f():
+            b = P.body("emit_file::ActiveFile::%s" % fn)
+            aggs = [s for bb, j, s in b.statements(normal_only=True) if s["k"] == "assign" and s["rv"]["k"] == "agg"
+                    and (s["rv"].get("adt") or "").endswith("ActiveFile")]
+            if len(aggs) != 1:
+                return False, "expected one ActiveFile construction", [], b.span
+            fo = dict(zip(aggs[0]["rv"]["fields"], [b.origin(o) for o in aggs[0]["rv"]["ops"]]))
+            v = mir.o_const_value(fo["file_needs_recovery"])
+            if v is not want:
+                return False, "%s constructs the file with file_needs_recovery = %s (must be %s)" % (fn, v, want), [], "%s:%s" % (b.file, aggs[0].get("line"))
+            if fn == "try_open_reuse":
+                sz = fo["file_size_bytes"]
+                if not common.roots(sz) or not any(k == "callsite" for k, v2 in common.roots(sz)):
+                    return False, "a reused file's size is %s, not read from the file" % o_str(sz), [], b.span
+            return True, "", ["%s:%s" % (b.file, aggs[0].get("line"))]
+        return f
+    chk.ob("C10.R4:try_open_reuse", "a reused file starts in recovery mode (a separator precedes the first new event)", ctor_flag("try_open_reuse", True))
+    chk.ob("C10.R4:try_open_create", "a created file starts clean", ctor_flag("try_open_create", False))
+
+    def open_opts(fn, need, forbid):
+        def f():
+            b = P.impl_method("emit_file::Filesystem", "emit_file::StdFilesystem", fn)
+            opts = {}
+            for c in b.calls(normal_only=True):
+                if "OpenOptions" in (c.callee.get("full") or "") and c.callee.get("name") not in ("new", "open"):
+                    v = mir.o_const_value(b.origin(c.args[1])) if len(c.args) > 1 else None
+                    opts[c.callee["name"]] = v
+            for n in need:
+                if opts.get(n) is not True:
+                    return False, "%s opens the file without %s(true) (options: %s)" % (fn, n, opts), [], b.span
+            for n in forbid:
+                if opts.get(n) is True:
+                    return False, "%s opens the file with %s(true)" % (fn, n), [], b.span
+            return True, "", [str(opts)]
+        return f
+    chk.ob("C10.R5:open_new", "new files are created exclusively (create_new) in append mode, never truncated",
+           open_opts("open_new", ["create_new", "append"], ["truncate"]))
+    chk.ob("C10.R5:open_existing", "existing files are opened append-only, never created or truncated",
+           open_opts("open_existing", ["append"], ["truncate", "create", "create_new"]))
+
+    def create_syncs_parent():
+        b = P.body("emit_file::ActiveFile::try_open_create")
+        sp = [c for c in b.calls(normal_only=True) if c.callee.get("name") == "sync_parent"]
+        on = [c for c in b.calls(normal_only=True) if c.callee.get("name") == "open_new"]
+        if len(sp) != 1 or len(on) != 1:
+            return False, "try_open_create must open_new and sync_parent", [], b.span
+        oks = [bb for bb, j, s in b.statements(normal_only=True) if s["k"] == "assign" and s["place"]["l"] == 0 and s["rv"]["k"] == "agg" and s["rv"].get("variant") == "Ok"]
+        for bb in oks:
+            if not b.dominates(sp[0].bb, bb) or not _q_success_guard(b, bb, sp[0].bb):
+                return False, "a created file is returned before/without the directory entry being synced", [], sp[0].loc
+        if not b.dominates(on[0].bb, sp[0].bb):
+            return False, "the parent is synced before the file exists", [], sp[0].loc
+        return True, "", [on[0].loc, sp[0].loc]
+    chk.ob("C10.R5:sync_parent", "the directory is synced after a file is created and before it is used", create_syncs_parent)
+
+    def separator_at_emit():
+        b = P.impl_method("emit_core::emitter::Emitter", "emit_file::FileSetInner", "emit")
+        bodies = [b] + P.closures_of(b)
+        for x in bodies:
+            snd = [c for c in x.calls(normal_only=True) if (c.callee.get("path") or "").startswith("emit_batcher::Sender::<") and c.callee.get("name") == "send"]
+            if not snd:
+                continue
+            ew = [c for c in x.calls(normal_only=True) if c.callee.get("name") == "ends_with"]
+            if len(ew) != 1:
+                return False, "the encoded event is not checked for a trailing separator before it is queued", [], snd[0].loc
+            if not x.dominates(ew[0].bb, snd[0].bb):
+                return False, "send is not dominated by the separator check", [], snd[0].loc
+            ext = [c for c in x.calls(normal_only=True) if c.callee.get("name") in ("extend_from_slice", "extend", "push", "write_all")]
+            okx = False
+            for c in ext:
+                for gbb, vals, n in x.guards_of(c.bb):
+                    so = x.switch_origin(gbb)
+                    if so[0] == "call" and so[1].bb == ew[0].bb and list(vals) == ["0"]:
+                        okx = True
+            if not okx:
+                return False, "the separator is not appended on the edge where it is missing", [], ew[0].loc
+            return True, "", [ew[0].loc, snd[0].loc]
+        return False, "FileSetInner::emit does not reach Sender::send", [], b.span
+    chk.ob("C10.R6:separator", "every queued record ends with the separator", separator_at_emit)
+
+    def advance():
+        b = P.body("emit_file::EventBatch::advance")
+        tk = b.calls_to(path="core::mem::take")
+        if len(tk) != 1:
+            return False, "advance must take the current buffer", [], b.span
+        writes = {}
+        for bb, j, s in b.statements(normal_only=True):
+            if s["k"] == "assign" and "p" in s["place"]:
+                names = [p.get("n") for p in s["place"]["p"] if isinstance(p, dict) and "f" in p]
+                if names and names[-1] in ("index", "remaining_bytes") and s["rv"]["k"] == "use":
+                    writes[names[-1]] = b.origin(s["rv"]["op"])
+        idx = writes.get("index")
+        rem = writes.get("remaining_bytes")
+        if idx is None or rem is None:
+            return False, "advance must update index and remaining_bytes", [], b.span
+        def is_step(o, op, k=None):
+            if o[0] == "field" and o[1][0] == "binop":
+                o = o[1]
+            return o[0] == "binop" and o[1].startswith(op)
+        if not is_step(idx, "Add") or mir.o_const_value((idx[1] if idx[0] == "field" else idx)[3]) != 1:
+            return False, "index is advanced by %s, not by one" % o_str(idx), [], b.span
+        r = rem[1] if rem[0] == "field" else rem
+        if not (r[0] == "binop" and r[1].startswith("Sub")):
+            return False, "remaining_bytes update is %s" % o_str(rem), [], b.span
+        if not (mir.o_is_call(r[3], name="len") and common.has_root(r[3], "callsite", tk[0].bb)):
+            return False, "remaining_bytes is reduced by %s, not the taken buffer's length" % o_str(r[3]), [], b.span
+        return True, "", [b.span]
+    chk.ob("C10.R7:EventBatch::advance", "advance moves the cursor by one and subtracts exactly the taken buffer's length", advance)
+
+    def r8_exits():
+        cb = main_closure(P)
+        adv = cb.calls_to(path="emit_file::EventBatch::advance")
+        sy = [c for c in cb.calls(normal_only=True) if c.callee.get("name") == "sync_all"]
+        if len(adv) != 1 or len(sy) != 1:
+            raise mir.AnchorMissing("advance / sync_all in the worker")
+        a, s = adv[0], sy[0]
+        reach = cb.reachable_from(a.term.get("t"), removed_blocks={s.bb})
+        exits = []
+        for rb in cb.return_blocks():
+            if rb not in reach:
+                continue
+            # name each way out by the error constructor feeding the return and the call whose failure selects it
+            found = False
+            for c in cb.calls_to(path_re=r"BatchError::<.*>::(retry|no_retry)$"):
+                if c.bb in reach and rb in cb.reachable_from(c.bb):
+                    sel = "?"
+                    for g, v, n in cb.guards_of(c.bb):
+                        so = cb.switch_origin(g)
+                        if so[0] == "discr" and so[1][0] == "call":
+                            sel = so[1][1].callee.get("name")
+                    exits.append(("%s@%s" % (c.callee.get("name"), sel), c.loc))
+                    found = True
+            if not found:
+                exits.append(("return@bb%d" % rb, cb.span))
+        return cb, a, s, sorted(set(exits))
+    try:
+        cb_, a_, s_, exits_ = r8_exits()
+        if not exits_:
+            chk.ok("C10.R8:advanced-events-synced", "events the cursor has moved past are synced before the worker returns on any path", sites=[a_.loc, s_.loc])
+        for name, loc in exits_:
+            chk.fail("C10.R8:advanced-events-synced:exit=%s" % name,
+                     "events the cursor has moved past are synced before the worker returns on any path",
+                     "after batch.advance() has moved past an event (so it is no longer in the remainder that would be retried) "
+                     "the worker can leave through `%s` at %s without sync_all(): the poisoned file is dropped unsynced, the "
+                     "remainder is retried on a new file and the batch is acknowledged - the earlier events of that batch "
+                     "were never synced" % (name, loc), loc=loc)
+    except mir.AnchorMissing as e:
+        chk.fail("C10.R8:advanced-events-synced", "events the cursor has moved past are synced before the worker returns on any path", "anchor missing: %s" % e)
+
+    from . import panics
+    bodies = [b for b in P.by_crate["emit_file"] if b.key.startswith("emit_file::ActiveFile::") or b.key.startswith("emit_file::EventBatch::")]
+    panics.inventory_rule(chk, "C10.panic", P, bodies, {
+        (r"^emit_file::EventBatch::advance$", "assert:bounds"): (1, "index < bufs.len() is established by current() returning Some in the loop condition"),
+        (r"^emit_file::EventBatch::advance$", "assert:overflow:Add"): (1, "index is bounded by the number of buffers"),
+        (r"^emit_file::EventBatch::advance$", "assert:overflow:Sub"): (1, "remaining_bytes is the sum of the buffer lengths still ahead of the cursor"),
+        (r"^emit_file::EventBatch::advance$", "index:slice"): (1, "same bound as above (IndexMut on the Vec)"),
+        (r"^emit_file::EventBatch::push$", "assert:overflow:Add"): (1, "sum of buffer lengths in memory cannot overflow usize"),
+        (r"^emit_file::ActiveFile::write_event$", "assert:overflow:Add"): (2, "file size accounting; a file cannot exceed usize bytes before the size limit rolls it"),
+    }, "the record writer and batch cursor have no unaccounted panic-capable site")
+    common.arg_agreement_rule(chk, P, "C10", [("emit_file", None)], 5)
+    return chk
